@@ -78,13 +78,20 @@ func evidenceDir() string {
 	return filepath.Join(root(), "evidence")
 }
 
-func build(outDir string) string { return buildBin(outDir, "") }
+func build(outDir string) string { return buildBin(outDir, "", false) }
 
 // buildBin compiles the harness test binary against /repo; with a fuzz target
 // name it builds the coverage-instrumented variant native fuzzing needs.
-func buildBin(outDir, fuzz string) string {
+func buildBin(outDir, fuzz string, race bool) string {
 	bin := filepath.Join(outDir, "checks.test")
 	args := []string{"test", "-c", "-tags", "verif", "-o", bin}
+	if race {
+		// the same harness under the Go race detector (jobs that sample goroutine
+		// hand-overs: an unsynchronised access is reported even when the
+		// interleaving that would corrupt a result did not occur)
+		bin = filepath.Join(outDir, "race-checks.test")
+		args = []string{"test", "-c", "-race", "-tags", "verif", "-o", bin}
+	}
 	if fuzz != "" {
 		bin = filepath.Join(outDir, "fuzz-"+fuzz+".test")
 		args = []string{"test", "-c", "-tags", "verif", "-fuzz", "^" + fuzz + "$", "-o", bin}
@@ -109,13 +116,24 @@ func buildBin(outDir, fuzz string) string {
 	cmd := exec.Command("go", args...)
 	cmd.Dir = filepath.Join(root(), "harness")
 	cmd.Env = goEnv()
+	if race {
+		cmd.Env = append(cmd.Env, "CGO_ENABLED=1") // the race detector needs cgo
+	}
 	var buf bytes.Buffer
 	cmd.Stdout, cmd.Stderr = &buf, &buf
 	if err := cmd.Run(); err != nil {
+		if race {
+			// no usable race detector here: the race jobs are skipped (noted in the
+			// evidence), the other jobs decide
+			raceBuildError = fmt.Sprintf("%v: %s", err, tail(buf.String(), 5))
+			return ""
+		}
 		fatal2("building the harness against /repo failed: %v\n%s", err, buf.String())
 	}
 	return bin
 }
+
+var raceBuildError string
 
 type shardRun struct {
 	job    job
@@ -245,8 +263,23 @@ func main() {
 	fuzzBins := map[string]string{}
 	for _, r := range runs {
 		if r.job.fuzz && fuzzBins[r.job.test] == "" {
-			fuzzBins[r.job.test] = buildBin(outDir, r.job.test)
+			fuzzBins[r.job.test] = buildBin(outDir, r.job.test, false)
 		}
+	}
+	raceBin := ""
+	for _, r := range runs {
+		if r.job.race && raceBin == "" && raceBuildError == "" {
+			raceBin = buildBin(outDir, "", true)
+		}
+	}
+	if raceBin == "" {
+		kept := runs[:0]
+		for _, r := range runs {
+			if !r.job.race {
+				kept = append(kept, r)
+			}
+		}
+		runs = kept
 	}
 	maxPar := 16
 	if v, err := strconv.Atoi(os.Getenv("VERIF_PAR")); err == nil && v > 0 {
@@ -270,6 +303,9 @@ func main() {
 			b := bin
 			if r.job.fuzz {
 				b = fuzzBins[r.job.test]
+			}
+			if r.job.race {
+				b = raceBin
 			}
 			results[i] = runShard(b, outDir, prop, tier, verifSeed, r, time.Duration(secs)*time.Second)
 			for k := 0; k < w; k++ {
@@ -343,6 +379,23 @@ func main() {
 		if err != nil {
 			infra = append(infra, fmt.Sprintf("job %s shard %d left no result file (exit %d):\n%s", name, res.run.shard, res.exit, tail(res.out, 40)))
 			continue
+		}
+		if res.exit != 0 && len(sh.Violations) == 0 && res.run.job.race && strings.Contains(res.out, "WARNING: DATA RACE") {
+			// the race detector saw an unsynchronised access: the report is the
+			// reproduction (the interleaving itself cannot be replayed)
+			report := res.out
+			if i := strings.Index(report, "WARNING: DATA RACE"); i >= 0 {
+				report = report[i:]
+			}
+			if len(report) > 6000 {
+				report = report[:6000]
+			}
+			raw, _ := json.Marshal(map[string]string{"job": name, "test": res.run.job.test, "report": report})
+			rp := evid.Replay{Property: prop, Kind: "race", Case: raw, Message: "the Go race detector reports a data race in " + res.run.job.test + ": " + firstFrames(report)}
+			path := filepath.Join(outDir, fmt.Sprintf("race-%s-s%d.json", name, res.run.shard))
+			if b, err := json.MarshalIndent(rp, "", " "); err == nil && os.WriteFile(path, b, 0o644) == nil {
+				sh.Violations = append(sh.Violations, evid.Violation{Replay: path, Message: rp.Message})
+			}
 		}
 		if res.exit != 0 && len(sh.Violations) == 0 {
 			infra = append(infra, fmt.Sprintf("job %s shard %d failed (exit %d) without recording a violation:\n%s", name, res.run.shard, res.exit, tail(res.out, 60)))
@@ -444,6 +497,9 @@ func main() {
 		cov["per_config"] = perConfig
 	}
 	cov["skipped_invalid"] = skipped
+	if raceBuildError != "" {
+		notes = append(notes, "race-detector jobs skipped: the race-instrumented harness could not be built here ("+raceBuildError+")")
+	}
 	if len(notes) > 0 {
 		cov["notes"] = notes
 	}
@@ -569,4 +625,28 @@ func findCrasher(out, work string) string {
 		p = filepath.Join(work, p)
 	}
 	return p
+}
+
+// firstFrames condenses a race report to the two accesses' top frames.
+func firstFrames(report string) string {
+	var out []string
+	lines := strings.Split(report, "\n")
+	for i, l := range lines {
+		t := strings.TrimSpace(l)
+		if (strings.HasPrefix(t, "Write at") || strings.HasPrefix(t, "Read at") || strings.HasPrefix(t, "Previous write at") || strings.HasPrefix(t, "Previous read at")) && i+1 < len(lines) {
+			// the first frame inside the repository, else the first frame
+			fr := strings.TrimSpace(lines[i+1])
+			for j := i + 1; j < len(lines) && j < i+14 && strings.TrimSpace(lines[j]) != ""; j += 2 {
+				if strings.Contains(lines[j], "teivah/majorana") {
+					fr = strings.TrimSpace(lines[j])
+					break
+				}
+			}
+			out = append(out, strings.SplitN(t, " at ", 2)[0]+" in "+fr)
+		}
+		if len(out) == 2 {
+			break
+		}
+	}
+	return strings.Join(out, " / ")
 }
